@@ -1,0 +1,127 @@
+//go:build verif
+
+package kafka
+
+import (
+	"bufio"
+	"bytes"
+	"fmt"
+)
+
+// Hook for the /verif harness (build tag `verif` only, property C04): the
+// hand-written response readers of the Conn codec, run on a response body
+// without a connection.
+
+type verifLegacyCodec interface {
+	readFrom(*bufio.Reader, int) (int, error)
+}
+
+type verifLegacyWriter interface {
+	writeTo(*writeBuffer)
+}
+
+// VerifLegacyResponses lists the response types accepted by
+// VerifLegacyRewrite together with their api key and the versions Conn
+// negotiates for them.
+func VerifLegacyResponses() []struct {
+	Name     string
+	Key      int16
+	Versions []int16
+} {
+	type e = struct {
+		Name     string
+		Key      int16
+		Versions []int16
+	}
+	return []e{
+		{"createTopicsResponse", int16(createTopics), []int16{0, 1, 2}},
+		{"deleteTopicsResponse", int16(deleteTopics), []int16{0, 1}},
+		{"findCoordinatorResponseV0", int16(findCoordinator), []int16{0}},
+		{"heartbeatResponseV0", int16(heartbeat), []int16{0}},
+		{"joinGroupResponse", int16(joinGroup), []int16{1, 2}},
+		{"leaveGroupResponseV0", int16(leaveGroup), []int16{0}},
+		{"listGroupsResponseV1", int16(listGroups), []int16{1}},
+		{"listOffsetResponseV1", int16(listOffsets), []int16{1}},
+		{"metadataResponseV1", int16(metadata), []int16{1}},
+		{"metadataResponseV6", int16(metadata), []int16{6}},
+		{"offsetCommitResponseV2", int16(offsetCommit), []int16{2}},
+		{"offsetFetchResponseV1", int16(offsetFetch), []int16{1}},
+		{"saslAuthenticateResponseV0", int16(saslAuthenticate), []int16{0}},
+		{"saslHandshakeResponseV0", int16(saslHandshake), []int16{0, 1}},
+		{"syncGroupResponseV0", int16(syncGroup), []int16{0}},
+	}
+}
+
+// VerifLegacyRewrite decodes body with the reader Conn uses for the named
+// response type (readFrom, or the reflective read for the types Conn passes to
+// readResponse) and encodes the decoded value again with the type's writeTo.
+// It returns the re-encoded bytes and the number of bytes the reader left.
+func VerifLegacyRewrite(name string, version int16, body []byte) (out []byte, remain int, err error) {
+	r := bufio.NewReader(bytes.NewReader(body))
+	v := apiVersion(version)
+	var w verifLegacyWriter
+	viaReadFrom := func(x interface {
+		verifLegacyCodec
+	}, get func() verifLegacyWriter) {
+		remain, err = x.readFrom(r, len(body))
+		w = get()
+	}
+	switch name {
+	case "createTopicsResponse":
+		x := &createTopicsResponse{v: v}
+		viaReadFrom(x, func() verifLegacyWriter { return *x })
+	case "deleteTopicsResponse":
+		x := &deleteTopicsResponse{v: v}
+		viaReadFrom(x, func() verifLegacyWriter { return *x })
+	case "findCoordinatorResponseV0":
+		x := &findCoordinatorResponseV0{}
+		viaReadFrom(x, func() verifLegacyWriter { return *x })
+	case "heartbeatResponseV0":
+		x := &heartbeatResponseV0{}
+		viaReadFrom(x, func() verifLegacyWriter { return *x })
+	case "joinGroupResponse":
+		x := &joinGroupResponse{v: v}
+		viaReadFrom(x, func() verifLegacyWriter { return *x })
+	case "leaveGroupResponseV0":
+		x := &leaveGroupResponseV0{}
+		viaReadFrom(x, func() verifLegacyWriter { return *x })
+	case "listGroupsResponseV1":
+		x := &listGroupsResponseV1{}
+		viaReadFrom(x, func() verifLegacyWriter { return *x })
+	case "offsetCommitResponseV2":
+		x := &offsetCommitResponseV2{}
+		viaReadFrom(x, func() verifLegacyWriter { return *x })
+	case "offsetFetchResponseV1":
+		x := &offsetFetchResponseV1{}
+		viaReadFrom(x, func() verifLegacyWriter { return *x })
+	case "saslAuthenticateResponseV0":
+		x := &saslAuthenticateResponseV0{}
+		viaReadFrom(x, func() verifLegacyWriter { return *x })
+	case "saslHandshakeResponseV0":
+		x := &saslHandshakeResponseV0{}
+		viaReadFrom(x, func() verifLegacyWriter { return *x })
+	case "syncGroupResponseV0":
+		x := &syncGroupResponseV0{}
+		viaReadFrom(x, func() verifLegacyWriter { return *x })
+	case "listOffsetResponseV1":
+		var x listOffsetResponseV1
+		remain, err = read(r, len(body), &x)
+		w = x
+	case "metadataResponseV1":
+		var x metadataResponseV1
+		remain, err = read(r, len(body), &x)
+		w = x
+	case "metadataResponseV6":
+		var x metadataResponseV6
+		remain, err = read(r, len(body), &x)
+		w = x
+	default:
+		return nil, 0, fmt.Errorf("verif: unknown legacy response type %q", name)
+	}
+	if err != nil {
+		return nil, remain, err
+	}
+	buf := &bytes.Buffer{}
+	w.writeTo(&writeBuffer{w: buf})
+	return buf.Bytes(), remain, nil
+}
